@@ -81,6 +81,20 @@ def extract(repo):
     if not re.search(r"tracker\.height\(\)\.saturating_sub\(stub\.blockheight\)\s*>\s*stub_prune_time", no):
         raise ExtractError("prune_channels: stub age comparison changed")
 
+    # find_or_create_channel: high-water-mark guard, then the capacity guard, then the slot lookup (this order)
+    po = strip_comments(read(repo, "vls-core/src/policy/mod.rs"))
+    max_channels_default = int_expr(const_value(po, "MAX_CHANNELS"))
+    if not re.search(r"fn max_channels\(&self\) -> usize \{\s*MAX_CHANNELS\s*\}", po):
+        raise ExtractError("Policy::max_channels: default is no longer MAX_CHANNELS")
+    cbody = body_after(no, r"fn find_or_create_channel\(")
+    i_hwm = cbody.find("if self.get_state().dbid_high_water_mark >= dbid {")
+    i_cap = cbody.find("if channels.len() >= policy.max_channels() {")
+    i_get = cbody.find("let maybe_slot = channels.get(&channel_id);")
+    if not (0 <= i_hwm < i_cap < i_get):
+        raise ExtractError("find_or_create_channel: high-water-mark guard / capacity guard / slot lookup changed shape or order")
+    if not re.search(r"self\.find_or_create_channel\(channel_id, arc_self, Some\(dbid\)\)", body_after(no, r"pub fn new_channel\(")):
+        raise ExtractError("new_channel no longer passes its dbid to the monotonicity guard")
+
     # does forget_channel persist the tracker entry (which carries the monitor's forget flag)?
     fbody = body_after(no, r"pub fn forget_channel\(")
     forget_persists_tracker = "update_tracker" in fbody
@@ -117,6 +131,34 @@ def extract(repo):
         raise ExtractError("on_transaction_end: get_spendable_htlc_indices call not found")
     spendable_fallback = m.group(1) == "unwrap_or_else"
 
+    # handler.rs, arms AddBlock / RemoveBlock / BlockChunk (Model/TrackerHandler.lean): which tracker outcomes are
+    # answered by a reply, which abort the process, and that the tracker entry is persisted only after Ok
+    ha = strip_comments(read(repo, "vls-protocol-signer/src/handler.rs"))
+    def arm(name, nxt):
+        m = re.search(r"Message::%s\(m\) => \{(.*?)Message::%s\(" % (name, nxt), ha, re.S)
+        if not m:
+            raise ExtractError("handler.rs: arm Message::%s not found (or not followed by Message::%s)" % (name, nxt))
+        return m.group(1)
+    a_add, a_rem, a_chunk = arm("AddBlock", "RemoveBlock"), arm("RemoveBlock", "BlockChunk"), arm("BlockChunk", "GetHeartbeat")
+    none_arm = r"None => \{\s*tracker\.abort_streamed_block\(\);\s*return Err\(Status::invalid_argument\("
+    for nm, body in (("AddBlock", a_add), ("RemoveBlock", a_rem)):
+        if not re.search(none_arm, body):
+            raise ExtractError("handler.rs %s: a missing proof is no longer answered by abort_streamed_block + invalid_argument" % nm)
+        if len(re.findall(r"\.update_tracker\(", body)) != 1:
+            raise ExtractError("handler.rs %s: expected exactly one update_tracker call" % nm)
+    i_call, i_ok = a_add.find(".add_block("), a_add.find("Ok(_) => ()")
+    i_orph = a_add.find("Err(TrackerError::OrphanBlock(msg)) =>")
+    i_panic, i_persist = a_add.find('Err(_e) => panic!("add_block")'), a_add.find(".update_tracker(")
+    if not (0 <= i_call < i_ok < i_orph < i_panic < i_persist):
+        raise ExtractError("handler.rs AddBlock: Ok / OrphanBlock reply / panic / update_tracker changed shape or order")
+    if not re.search(r"Err\(TrackerError::OrphanBlock\(msg\)\) => \{\s*return Ok\(Box::new\(msgs::SignerError \{\s*code: msgs::CODE_ORPHAN_BLOCK", a_add):
+        raise ExtractError("handler.rs AddBlock: an orphan block is no longer answered by SignerError{CODE_ORPHAN_BLOCK}")
+    i_rm, i_rp = a_rem.find('tracker.remove_block(proof, prev_headers).expect("remove_block");'), a_rem.find(".update_tracker(")
+    if not (0 <= i_rm < i_rp):
+        raise ExtractError("handler.rs RemoveBlock: `remove_block(..).expect(..)` followed by update_tracker not found")
+    if 'tracker.block_chunk(m.hash, m.offset, &m.content.0).expect("block_chunk");' not in a_chunk or "update_tracker" in a_chunk:
+        raise ExtractError("handler.rs BlockChunk: arm changed shape")
+
     btc_ver, diffchange = _bitcoin_constants(repo)
 
     lean = "namespace VlsModel.Gen.Chain\n"
@@ -131,6 +173,7 @@ def extract(repo):
     lean += f"def maxCommitmentOutputs : Nat := {max_commit_outs}\n"
     lean += f"def channelStubPruneBlocks : Nat := {stub_prune}\n"
     lean += f"def channelStubPruneRegtestExtra : Nat := {stub_regtest_extra}\n"
+    lean += f"def maxChannelsDefault : Nat := {max_channels_default}\n"
     lean += f"def forgetPersistsTracker : Bool := {'true' if forget_persists_tracker else 'false'}\n"
     lean += f"def removeExpectsTipHash : Bool := {'true' if remove_expects_tip_hash else 'false'}\n"
     lean += f"def fundingUndoTolerant : Bool := {'true' if funding_undo_tolerant else 'false'}\n"
@@ -140,7 +183,12 @@ def extract(repo):
              "testnet_20min_gap_s": testnet_gap, "max_target": {k: "0x%x << %d" % v for k, v in tgt.items()},
              "MIN_DEPTH": min_depth, "MAX_CLOSING_DEPTH": max_closing_depth,
              "MAX_COMMITMENT_OUTPUTS": max_commit_outs, "CHANNEL_STUB_PRUNE_BLOCKS": stub_prune,
-             "stub_regtest_extra": stub_regtest_extra, "required_majority": "(n + 1) / 2",
+             "stub_regtest_extra": stub_regtest_extra, "MAX_CHANNELS": max_channels_default,
+             "handler_block_arms": {"AddBlock": "no proof: abort stream + invalid_argument; Ok: persist + reply; OrphanBlock: SignerError reply; other Err: panic",
+                                    "RemoveBlock": "no proof: abort stream + invalid_argument; Ok: persist + reply; any Err: expect -> panic",
+                                    "BlockChunk": "expect -> panic; no persist"},
+             "new_channel_guards": "dbid_high_water_mark >= dbid; channels.len() >= policy.max_channels(); slot lookup",
+             "required_majority": "(n + 1) / 2",
              "is_done_events": [e for e, _ in lims],
              "forget_channel_persists_tracker": forget_persists_tracker,
              "unknown_commitment_close_watches_all_outputs": spendable_fallback,
